@@ -53,6 +53,8 @@ type stampDb struct {
 	// index-driven cursor providers created once and shared by every reader and transaction (as a caller that keeps a
 	// provider per role list would): over two values (merged set) and over one (the index's own cursor)
 	anyOfPar0, onlyPar1 func(tx *bbolt.Tx, forward bool) ast.SetCursor
+	// and one that wants two values at once (everybody has "all", "par-0" changes hands with every generation)
+	allOfPar0 func(tx *bbolt.Tx, forward bool) ast.SetCursor
 	// role lists handed to FindMatching / FindMatchingAnyOf by every reader (one slice each, shared like a constant)
 	allOfRoles, anyOfRoles []string
 	// ids returned by queries, kept by the caller beyond its read transaction (with copies made while it was open)
@@ -77,6 +79,7 @@ func openStamp(path string) (*stampDb, error) {
 	cells := sc.St("cells")
 	s.anyOfPar0 = cells.Store.IteratorMatchingAnyOf(cells.SetIdx["roles"], []string{"par-0", "no-such-role"})
 	s.onlyPar1 = cells.Store.IteratorMatchingAnyOf(cells.SetIdx["roles"], []string{"par-1"})
+	s.allOfPar0 = cells.Store.IteratorMatchingAllOf(cells.SetIdx["roles"], []string{"all", "par-0"})
 	return s, nil
 }
 
@@ -261,10 +264,10 @@ func (s *stampDb) verifyTx(tx *bbolt.Tx, deep bool) (int64, []string) {
 			}
 		}
 		// the shared providers, asked inside this transaction, answer for this transaction's state
-		for pi, provider := range []func(tx *bbolt.Tx, forward bool) ast.SetCursor{s.anyOfPar0, s.onlyPar1} {
+		for pi, provider := range []func(tx *bbolt.Tx, forward bool) ast.SetCursor{s.anyOfPar0, s.onlyPar1, s.allOfPar0} {
 			var exp []string
 			for i := 0; i < stampCells; i++ {
-				if parRole(i, g) == fmt.Sprintf("par-%d", pi) {
+				if parRole(i, g) == fmt.Sprintf("par-%d", pi%2) {
 					exp = append(exp, cellId(i))
 				}
 			}
@@ -280,7 +283,7 @@ func (s *stampDb) verifyTx(tx *bbolt.Tx, deep bool) (int64, []string) {
 				}
 				ids, _, err := cells.Store.QueryWithCursorC(tx, provider, pq)
 				if err != nil || fmt.Sprint(ids) != fmt.Sprint(want) {
-					addf("shared IteratorMatchingAnyOf provider %d with %q = %q err=%v, expected %q (generation %d)", pi, text, ids, err, want, g)
+					addf("shared IteratorMatchingAnyOf / AllOf provider %d with %q = %q err=%v, expected %q (generation %d)", pi, text, ids, err, want, g)
 				}
 			}
 		}
